@@ -44,6 +44,10 @@ CHECKS = {
    technique="symbolic execution of the MIR of Vm::parse + pest::state() + ParserState::{rule,track} on fully symbolic input; on every failing path the reported position and rule lists are checked against the attempt log of the reference semantics evaluated on the same path condition",
    text="For derive/tests/reporting.pest (nine start rules) and the seeded grammar family (120 quick / 1000 thorough) and every valid UTF-8 input of 0..N bytes (N=3/5): every failing path of the real VM is checked: the reported position is the furthest position at which a reportable rule failed (or matched under negation), 0 if none; each expected rule failed exactly there outside negation, each unexpected rule matched exactly there under negation; both lists are sorted, duplicate-free and not both empty when a reportable failure exists. The error (position, positives, negatives) of every path is compared with the compiled VM's.",
    note="VM back-end only. The statement's replacement rule for nested attempts (parent instead of children unless exactly one) is not re-derived by the oracle: only its soundness consequences are checked. Trusted as for C01."),
+ "C02": dict(level="translation_validation", design="§5 C02", engine="M",
+   technique="the Rust source emitted by pest_generator for each grammar is compiled in a driver crate; its MIR and the MIR of pest_vm (running the optimized rules of the same grammar) are executed symbolically on the same fully symbolic input inside one path, both through the real pest::state(); z3 decides the joint path conditions and the results are compared",
+   text="For each grammar of the family (divergence-targeted shapes: every modifier on WHITESPACE and COMMENT, user rules named like non-keyword built-ins, stack operations, predicates, skip patterns, node tags with grammar-extras; plus the seeded family; 150 quick / 1200 thorough per feature set) and start rules a, b, on every valid UTF-8 input of 0..N bytes (N=3/5): identical token pairs and tags on success, identical error position and identical sets of expected/unexpected rules on failure. Both sides are the real code (no reference model); every joint path is replayed on the compiled VM and on the compiled generated parser.",
+   note="Trusted: generator output taken as text from pest_generator::derive_parser (what the derive macro compiles); MIR = compiled code; executor summaries (validated by the double native replay); z3. Rule lists are compared as sets (the back-ends order them differently by construction). Unicode property rules are not in the family."),
 }
 
 NOT_APPLICABLE = {
